@@ -80,6 +80,11 @@ def define_tables(run, model, rule="C08.define"):
             for s in subterms(t):
                 if s[0] == "call" and s[1] == ("builtin", "len") and len(s[2]) == 1:
                     ARGS = s[2][0]
+    # the count is taken over ALL parameters of the capture function (a defaulted parameter is still a parameter)
+    from . import select as _select
+
+    counted = _select._names_of(strip_sites(ARGS)) if ARGS is not None else None
+    run.check(counted == ("param", "capture"), rule, fi.qual + ":counted-parameters", "the name is inferred from the full parameter list of the capture function", "whether a snapshot must be named is decided over %s, not over all the parameters of the capture function" % (show(strip_sites(ARGS), 80) if ARGS is not None else "nothing"), fi.loc())
     for name_kind in ("none", "given"):
         for nargs in (0, 1, 2):
             def ev(t, name_kind=name_kind, nargs=nargs):
